@@ -26,7 +26,7 @@ FUNCTIONS = ["ioflo.base.framing.Framer.clone/resolveMoots/prune/newAuxTag/newMo
 ASSUMPTIONS = [
     "variants: V1 two insular clones + one named clone on two frames; V2 clone nested inside a clone of a second moot framer; "
     "V3 clone reared at run time into another frame, razed later (raze all / first / last)",
-    "moot framer: c0 (inc 'cnt of framer' at recur; go c1 if y >= 1) -> c1 (put 7 into 'mark of frame'; done me)",
+    "moot framer: c0 (inc 'cnt of framer' at recur; go c1 if y >= 1; timeout 3) -> c1 (put 7 into 'mark of frame'; repeat 2) -> c2 (done me): explicit, implicit-clock and relative-data references",
     "the reference house replaces the clones on the frame under test by the plain original (schedule aux)",
     "integer store time; inputs in [0,1], fresh each tick; 3 (quick) / 4 (thorough) ticks after start",
 ]
@@ -39,9 +39,13 @@ ORIG = [
     "      put 0 into cnt of framer",
     "      recur", "      inc cnt of framer with 1", "      native",
     "      go c1 if y >= 1",
+    "      timeout 3",
     "    frame c1",
     "      do verif record at enter", "      do verif record at recur", "      do verif record at exit",
     "      put 7 into mark of frame",
+    "      repeat 2",
+    "    frame c2",
+    "      do verif record at enter", "      do verif record at recur", "      do verif record at exit",
     "      done me",
 ]
 
@@ -83,10 +87,15 @@ def rel_paths(framer):
     for frame in framer.frameNames.values():
         for lst in (frame.enacts, frame.reacts, frame.exacts, frame.preacts, frame.beacts):
             for act in lst:
-                parms = getattr(act, "parms", None) or {}
-                for v in parms.values():
-                    if isinstance(v, storing.Share):
-                        out.add(v.name)
+                stack = [act]
+                while stack:        # transitions keep their condition acts in parms['needs']
+                    a = stack.pop()
+                    parms = getattr(a, "parms", None) or {}
+                    for v in parms.values():
+                        if isinstance(v, storing.Share):
+                            out.add(v.name)
+                        elif isinstance(v, (list, tuple)):
+                            stack.extend(x for x in v if hasattr(x, "parms"))
     return out
 
 
